@@ -122,6 +122,50 @@ def run(run):
                                     R(QG.mk("or", QG.mk("and", a, b), QG.mk("and", a, c)))[0], QG.mk("and", both, c))
                     run.sample(dict(kind=kind, atoms=[atom_text(a) for a in atoms], universe=len(universe),
                                     result_sizes={atom_text(a): len(base[atom_text(a)][0]) for a in atoms}))
+                # --- operands that are calls of declared predicates, over two kinds: an alias may occur in the condition
+                #     only as an argument of a call (never dereferenced there); the laws hold all the same
+                small = [k for k in ("class_declaration", "method_declaration", "variable_declaration") if 1 <= len(proj.by_kind.get(k, [])) <= 40]
+                for rep in range(2 if run.depth == "quick" else 6):
+                    if len(small) < 2:
+                        break
+                    ka, kb = rng.sample(small, 2)
+                    a1, a2 = rng.choice([("c", "m"), ("x", "y"), ("a", "b")])
+                    vb = rng.choice(proj.values.get((kb, "getName")) or ["zz"])
+                    va = rng.choice(proj.values.get((ka, "getName")) or ["zz"])
+                    body = rng.choice(['z.getName() == "%s"' % vb, 'z.getName() != "%s"' % vb, 'z.getVisibility() == "public"'])
+                    decl = "predicate isP(%s z) { %s } " % (kb, body)
+                    inl = "(" + body.replace("z.", a2 + ".") + ")"
+                    B = "isP(%s)" % a2
+                    A = rng.choice(['%s.getName() != "%s"' % (a2, vb), '%s.getVisibility() != "private"' % a2, '%s.getName() == "%s"' % (a1, va)])
+                    T = '%s.getName() != "no such name"' % a1
+
+                    def RS(cond, with_decl=True):
+                        text = "%sFROM %s AS %s, %s AS %s %sSELECT %s" % (decl if with_decl else "", ka, a1, kb, a2, ("WHERE %s " % cond) if cond else "", a1)
+                        rr = h.call(op="query-entities", graph=proj.name, q=text, timeout=120)
+                        run.count(("pred-law", pi, rep, text))
+                        stats["predicate_operand_cases"] += 1
+                        if rr.get("outcome") != "ok":
+                            return None, text
+                        return {tuple(t) for t in rr["tuples"]}, text
+                    U, _ = RS(None)
+                    rB, tB = RS(B)
+                    rA, _ = RS(A)
+                    rI, _ = RS(inl, with_decl=False)
+                    if None in (U, rB, rA, rI):
+                        continue
+                    checks = [("results(p(y)) = results(body of p on y)", RS(B), rI),
+                              ("results(!p(y)) = all - results(body)", RS("!" + B), U - rI),
+                              ("results(A && p(y)) = results(A) ∩ results(body)", RS("%s && %s" % (A, B)), rA & rI),
+                              ("results(p(y) && A) = results(A) ∩ results(body)", RS("%s && %s" % (B, A)), rA & rI),
+                              ("results(A || p(y)) = results(A) ∪ results(body)", RS("%s || %s" % (A, B)), rA | rI),
+                              ("results(p(y) && T) = results(body), T true everywhere", RS("%s && %s" % (B, T)), rI),
+                              ("results(!(A || p(y))) = all - (A ∪ body)", RS("!(%s || %s)" % (A, B)), U - (rA | rI))]
+                    for name, (got, text), want in checks:
+                        if got is not None and got != want:
+                            diff = sorted(got ^ want)
+                            run.violation("C12:set-law:" + name.split(" =")[0], "%s fails on the real engine for %r: %d combination(s) differ, e.g. %s" %
+                                          (name, text, len(diff), E.describe(proj, diff, 2)),
+                                          dict(law=name, query=text, java=E.java_files(proj), differing=E.describe(proj, diff)))
             finally:
                 proj.close()
     finally:
